@@ -63,6 +63,13 @@ type timeline struct {
 	// every interval is a real call through a suspending decorator against
 	// a parked backend, Calls[r][i] being the call behind Readers[r][i].
 	OuterCancel *int          `json:"outer_cancel,omitempty"`
+	// ConsumerStall: Execute() is called ConsumerStall[0]+ConsumerStall[1]
+	// ticks before Create (event kind "launch") and the consumer of its
+	// execution state updates lets it wait that long before taking the
+	// first ("fetching inputs") and the second ("running") update, so
+	// that the command still starts at Create. Time spent waiting for
+	// the worker to take a state update is not run time of the command.
+	ConsumerStall []int `json:"consumer_stall,omitempty"`
 	Stalls      string        `json:"stalls,omitempty"`
 	Calls       [][]wiredPlan `json:"calls,omitempty"`
 
